@@ -1395,6 +1395,7 @@ func TestC20(t *testing.T) {
 	e.hostileAnte()
 	e.anteRawSweep(t)
 	e.nodeConfigSweep(t)
+	e.abciSweep(t)
 	out.Stats.Extra["violation_counts"] = e.seenV
 	if len(e.dep) > 0 {
 		out.Stats.Extra["dependency_type_panics (SDK/IBC/ethermint message code, outside fx-core)"] = e.dep
